@@ -649,5 +649,227 @@ theorem optChar_spec (N : Nat) (c : Nat) (kind : TK) (hv : ValOK kind [c]) :
 theorem pure_spec {α} (N : Nat) (a : α) : Spec N (pure a : M α) RLe :=
   fun _ hs => ⟨hs, Nat.le_refl _⟩
 
+theorem SR.Sat.bind' {α β} {N : Nat} {m : M α} {f : α → M β} {s : St} {P : α → St → Prop}
+    {Q : β → St → Prop} (hm : (m s).Sat N P) (h : ∀ a s', P a s' → (f a s').Sat N Q) :
+    ((m >>= f) s).Sat N Q :=
+  SR.Sat.bind (hm.mono h)
+
+/-- last step of a block: the lengths chain up -/
+theorem Spec.final {α} {N : Nat} {m : M α} (hm : Spec N m RLe) {s1 : St} (hs1 : Inv N s1)
+    {L : Nat} (hl : s1.rest.length ≤ L) :
+    (m s1).Sat N (fun _ s' => Inv N s' ∧ s'.rest.length ≤ L) :=
+  (hm s1 hs1).mono (fun _ s' h' => ⟨h'.1, Nat.le_trans h'.2 hl⟩)
+
+theorem Spec.toLe {α} {N : Nat} {m : M α} {k : Nat} (hm : Spec N m (RGe k)) : Spec N m RLe :=
+  hm.mono (fun _ l' l (h : l' + k ≤ l) => (by omega : l' ≤ l))
+
+theorem Spec.toLeB {N : Nat} {m : M Bool} {k : Nat} (hm : Spec N m (RB k)) : Spec N m RLe :=
+  hm.mono (fun _ _ _ h => h.1)
+
+macro "ite_clean" : tactic =>
+  `(tactic| simp only [Bool.false_eq_true, if_true, if_false, ↓reduceIte])
+
+theorem scanOK_lit (lit : Text) (kind : TK) (hv : ∀ v, ValOK kind v) {k : Nat}
+    (hk : k ≤ lit.length) : ScanOK (mLit lit) kind k := by
+  intro t n h
+  obtain ⟨h1, h2⟩ := mLit_some h
+  exact ⟨by omega, h2, hv _⟩
+
+theorem scanOK_identifier : ScanOK mIdentifier .identifier 1 :=
+  fun _ _ h => ⟨(mIdentifier_some h).1, (mIdentifier_some h).2, trivial⟩
+theorem scanOK_tag : ScanOK mTag .tag 1 :=
+  fun _ _ h => ⟨(mTag_some h).1, (mTag_some h).2, trivial⟩
+theorem scanOK_modifier : ScanOK mModifier .modifier 1 :=
+  fun _ _ h => ⟨(mModifier_some h).1, (mModifier_some h).2, trivial⟩
+theorem scanOK_integer : ScanOK mInteger .integer 1 :=
+  fun _ _ h => ⟨(mInteger_some h).1, (mInteger_some h).2.1, (mInteger_some h).2.2⟩
+theorem scanOK_char : ScanOK mChar .char 1 :=
+  fun _ _ h => ⟨(mChar_some h).1, (mChar_some h).2.1, (mChar_some h).2.2⟩
+
+/-! ### strings -/
+
+theorem unescape_no_exc (v : Text) (n : String) : unescape v ≠ .exc n := by
+  intro h
+  cases hs : Unescape.specUnescape v with
+  | some a => rw [Unescape.unescape_of_spec hs] at h; cases h
+  | none =>
+    obtain ⟨e, he⟩ := Unescape.unescape_of_spec_none hs
+    rw [he] at h; cases h
+
+theorem stringLoop_sat (kind : TK) (hk : ∀ v, ValOK kind v) (N : Nat) :
+    ∀ (n : Nat) (body : Text) (esc : Bool) (s : St), Inv N s → s.rest.length < n →
+      (stringLoop kind n body esc s).Sat N (fun _ s' => Inv N s' ∧ s'.rest.length ≤ s.rest.length)
+  | 0, _, _, _, _, h => by omega
+  | n + 1, body, esc, s, hs, h => by
+    rw [stringLoop]
+    dsimp only
+    split
+    · have := hs.start_le; have := hs.len
+      show s.start ≤ N
+      omega
+    · rename_i r heq
+      have hl : s.rest.length = r.length + 1 := by rw [heq]; rfl
+      have hs1 : Inv N (s.adv 1) := hs.adv (by omega)
+      simp only
+      split
+      · rename_i k hk'
+        obtain ⟨k1, k2, _⟩ := escapeLen_some hk'
+        have hs2 : Inv N ((s.adv 1).adv k) := hs1.adv (by simp only [adv_rest_length]; omega)
+        refine (stringLoop_sat kind hk N n _ true _ hs2 (by simp only [adv_rest_length]; omega)).mono
+          (fun _ s' h' => ⟨h'.1, ?_⟩)
+        have := h'.2
+        simp only [adv_rest_length] at this
+        omega
+      · exact error_sat hs1 _ _
+    · rename_i r heq
+      have hl : s.rest.length = r.length + 1 := by rw [heq]; rfl
+      have hs1 : Inv N (s.adv 1) := hs.adv (by omega)
+      simp only
+      split
+      · cases hu : unescape body.reverse with
+        | ok v =>
+          refine ⟨hs1.emit (hk _), ?_⟩
+          simp only [emit_rest, adv_rest_length]; omega
+        | error e =>
+          have := hs.start_le; have := hs.len
+          show s.start ≤ N
+          omega
+        | exc nm => exact absurd hu (unescape_no_exc _ _)
+      · refine ⟨hs1.emit (hk _), ?_⟩
+        simp only [emit_rest, adv_rest_length]; omega
+    · rename_i c r heq _ _
+      have hl : s.rest.length = r.length + 1 := by rw [heq]; rfl
+      have hs1 : Inv N (s.adv 1) := hs.adv (by omega)
+      refine (stringLoop_sat kind hk N n _ esc _ hs1 (by simp only [adv_rest_length]; omega)).mono
+        (fun _ s' h' => ⟨h'.1, ?_⟩)
+      have := h'.2
+      simp only [adv_rest_length] at this
+      omega
+
+theorem acceptString_spec (N : Nat) : Spec N acceptString RLe := by
+  intro s hs
+  unfold acceptString
+  by_cases hp : s.peek = some 34
+  · rw [if_pos hp]
+    have := peek_some hp
+    have hs1 : Inv N { s.adv 1 with start := (s.adv 1).pos } := (hs.adv this).setStart
+    refine (stringLoop_sat .string (fun _ => trivial) N _ [] false _ hs1 (Nat.lt_succ_self _)).mono
+      (fun _ s' h' => ⟨h'.1, ?_⟩)
+    have h2 := h'.2
+    simp only [adv_rest_length] at h2
+    show s'.rest.length ≤ s.rest.length
+    omega
+  · rw [if_neg hp]; exact ⟨hs, Nat.le_refl _⟩
+
+theorem acceptCIString_spec (N : Nat) : Spec N acceptCIString RLe := by
+  intro s hs
+  unfold acceptCIString
+  by_cases hp : s.peek = some 94
+  · rw [if_pos hp]
+    have := peek_some hp
+    have hs1 : Inv N { s.adv 1 with start := (s.adv 1).pos } := (hs.adv this).setStart
+    have hs2 := skipTrivia_inv hs1
+    have hl2 := skipTrivia_len { s.adv 1 with start := (s.adv 1).pos }
+    simp only [adv_rest_length] at hl2
+    simp only
+    generalize skipTrivia { s.adv 1 with start := (s.adv 1).pos } = s2 at hs2 hl2 ⊢
+    by_cases hq : s2.peek = some 34
+    · rw [if_pos hq]
+      have := peek_some hq
+      have hs3 : Inv N { s2.adv 1 with start := (s2.adv 1).pos } := (hs2.adv this).setStart
+      refine (stringLoop_sat .stringCI (fun _ => trivial) N _ [] false _ hs3
+        (Nat.lt_succ_self _)).mono (fun _ s' h' => ⟨h'.1, ?_⟩)
+      have h2 := h'.2
+      simp only [adv_rest_length] at h2
+      show s'.rest.length ≤ s.rest.length
+      omega
+    · rw [if_neg hq]; exact error_sat hs2 _ _
+  · rw [if_neg hp]; exact ⟨hs, Nat.le_refl _⟩
+
+/-! ### postfix operators -/
+
+theorem boundsLoop_sat (N : Nat) : ∀ (n : Nat) (s : St), Inv N s → s.rest.length < n →
+    (boundsLoop n s).Sat N (fun _ s' => Inv N s' ∧ s'.rest.length ≤ s.rest.length)
+  | 0, _, _, h => by omega
+  | n + 1, s0, hs0, h => by
+    rw [boundsLoop]
+    have hs := skipTrivia_inv hs0
+    have hl := skipTrivia_len s0
+    simp only
+    generalize skipTrivia s0 = s at hs hl ⊢
+    by_cases hp : s.peek = some 44
+    · rw [if_pos hp]
+      have := peek_some hp
+      have hs1 : Inv N ((s.adv 1).emit .comma [44]) := (hs.adv this).emit trivial
+      refine (boundsLoop_sat N n _ hs1 (by simp only [emit_rest, adv_rest_length]; omega)).mono
+        (fun _ s' h' => ⟨h'.1, ?_⟩)
+      have h2 := h'.2
+      simp only [emit_rest, adv_rest_length] at h2
+      omega
+    · rw [if_neg hp]
+      cases hm : mNumber s.rest with
+      | none => exact ⟨hs, hl⟩
+      | some k =>
+        obtain ⟨k1, k2, k3⟩ := mNumber_some hm
+        have hs1 : Inv N ((s.adv k).emit .number (s.rest.take k)) := (hs.adv k2).emit k3
+        refine (boundsLoop_sat N n _ hs1 (by simp only [emit_rest, adv_rest_length]; omega)).mono
+          (fun _ s' h' => ⟨h'.1, ?_⟩)
+        have h2 := h'.2
+        simp only [emit_rest, adv_rest_length] at h2
+        omega
+
+theorem acceptPostfixOp_spec (N : Nat) : Spec N acceptPostfixOp (RB 1) := by
+  intro s0 hs0
+  unfold acceptPostfixOp
+  have hs := skipTrivia_inv hs0
+  have hl := skipTrivia_len s0
+  simp only
+  generalize skipTrivia s0 = s at hs hl ⊢
+  have one : ∀ (c : Nat) (kind : TK), ValOK kind [c] → s.peek = some c →
+      Inv N ((s.adv 1).emit kind [c]) ∧
+        RB 1 true ((s.adv 1).emit kind [c]).rest.length s0.rest.length := by
+    intro c kind hv hp
+    have := peek_some hp
+    refine ⟨(hs.adv this).emit hv, ?_, fun _ => ?_⟩
+    · simp only [emit_rest, adv_rest_length]; omega
+    · simp only [emit_rest, adv_rest_length]; omega
+  by_cases h1 : s.peek = some 63
+  · rw [if_pos h1]; exact one 63 .optionOp trivial h1
+  · rw [if_neg h1]
+    by_cases h2 : s.peek = some 42
+    · rw [if_pos h2]; exact one 42 .repeatOp trivial h2
+    · rw [if_neg h2]
+      by_cases h3 : s.peek = some 43
+      · rw [if_pos h3]; exact one 43 .repeatOnceOp trivial h3
+      · rw [if_neg h3]
+        by_cases h4 : s.peek = some 123
+        · rw [if_pos h4]
+          obtain ⟨hs1, hl1, hp1⟩ := one 123 .lbrace trivial h4
+          have hp1 := hp1 rfl
+          generalize (s.adv 1).emit .lbrace [123] = s1 at hs1 hl1 hp1 ⊢
+          refine SR.Sat.bind' (boundsLoop_sat N _ s1 hs1 (Nat.lt_succ_self _))
+            (fun _ s2 ⟨hs2, hl2⟩ => ?_)
+          refine (triv_spec N).bind hs2 (fun _ s3 hs3 (hl3 : s3.rest.length ≤ s2.rest.length) => ?_)
+          refine (expect_spec N 125 .rbrace .expectedRBrace trivial).bind hs3
+            (fun _ s4 hs4 (hl4 : s4.rest.length + 1 ≤ s3.rest.length) => ?_)
+          exact ⟨hs4, by omega, fun _ => by omega⟩
+        · rw [if_neg h4]
+          exact ⟨hs, hl, fun h => by cases h⟩
+
+theorem postfixLoop_sat (N : Nat) : ∀ (n : Nat) (s : St), Inv N s → s.rest.length < n →
+    (postfixLoop n s).Sat N (fun _ s' => Inv N s' ∧ s'.rest.length ≤ s.rest.length)
+  | 0, _, _, h => by omega
+  | n + 1, s, hs, h => by
+    rw [postfixLoop]
+    refine (acceptPostfixOp_spec N).bind hs (fun b s1 hs1 ⟨hl1, hp1⟩ => ?_)
+    cases b
+    · ite_clean; exact ⟨hs1, hl1⟩
+    · ite_clean
+      have := hp1 rfl
+      exact (postfixLoop_sat N n s1 hs1 (by omega)).mono (fun _ s' h' => ⟨h'.1, by have := h'.2; omega⟩)
+
+theorem acceptPostfixOps_spec (N : Nat) : Spec N acceptPostfixOps RLe :=
+  fun s hs => postfixLoop_sat N _ s hs (Nat.lt_succ_self _)
+
 end Front
 end Pest
